@@ -27,6 +27,9 @@ ALLOWED_READERS = {
 
 def check(ctx):
     repo = ctx.repo
+    ctx.rule("R11.6", "arrays handed from update() to the runner are fresh (no view of an attribute-held solver buffer)", 12)
+    ctx.rule("R11.7", "no function writes into an array it was handed (output-parameter table excepted)", 1)
+    ctx.rule("R11.8", "update() carries no hidden numerical state across calls beyond the confirmed table", 4)
     ctx.rule("R11.1", "recording options (save_every, output_file, progress_interval, monitor, ...) are read only by the runner, the "
                       "data handler, their construction site and post-processing - never by the numerics", 6)
     ctx.rule("R11.2", "observers are pure: the save path and the probe readout write only to HDF5 objects, their own counters and the record buffer", 5)
@@ -106,6 +109,10 @@ def check(ctx):
                witness={"path": w})
     if not saves_bad:
         ctx.ob("R11.5", "every frame is saved in the consistent typestate", True, where=frs.fq, construct="typestate")
+    from ..effects import cross_call_state, fresh_outputs, input_purity
+    fresh_outputs(ctx, "R11.6", 'the field arrays kept by the Runner for the next frame alias a solver buffer that the next (possibly abandoned) update overwrites: frames depend on when they were written, and an interrupted step corrupts the previous state')
+    input_purity(ctx, "R11.7", 'the solve modifies arrays owned by the caller or the recorder (seed solution fields, the state kept for the next frame): what is observed/resumed is no longer what was computed')
+    cross_call_state(ctx, "R11.8", 'state that is neither saved in a frame nor listed as reset at the start of a run: a run resumed from a seed solution (or a second solve() on the same solver) does not reproduce the uninterrupted run')
     ctx.assume("HDF5 round-trips float64/complex128 exactly; resume is claimed for fixed steps and a constant drive only")
     ctx.decline("bit-equality of a resumed run as a whole (follows from R11.4 + determinism C09 + R11.5 in exact terms)")
 
